@@ -68,8 +68,14 @@ macro_rules! deb_opaque { ($($n:ident),* $(,)?) => { verus!{ $(
     }
 )* } } }
 /// the bytes `rawb` are exactly the input bytes the value `v` was decoded from
+#[verifier::opaque]
 pub open spec fn cap<T: DeB>(buf: Seq<u8>, v: Option<T>, rawb: Option<Vec<u8>>) -> bool {
     (v is Some <==> rawb is Some)
     && (v is Some ==> exists|a: nat| (#[trigger] T::decb(buf, a)) is Some && T::decb(buf, a)->Some_0.0 == v->Some_0 && a <= T::decb(buf, a)->Some_0.1 <= buf.len()
                 && rawb->Some_0@ == buf.subrange(a as int, T::decb(buf, a)->Some_0.1 as int))
 }
+pub proof fn lemma_cap_intro<T: DeB>(buf: Seq<u8>, v: T, bytes: Vec<u8>, a: nat)
+    requires T::decb(buf, a) is Some, T::decb(buf, a)->Some_0.0 == v, a <= T::decb(buf, a)->Some_0.1 <= buf.len(), bytes@ == buf.subrange(a as int, T::decb(buf, a)->Some_0.1 as int)
+    ensures cap(buf, Some(v), Some(bytes))
+{ reveal(cap); }
+pub proof fn lemma_cap_none<T: DeB>(buf: Seq<u8>) ensures cap(buf, None::<T>, None) { reveal(cap); }
